@@ -6,6 +6,11 @@ import Ibx.Props.C16Broker
   Reverting `Emit` to `go l(*event)` regenerates `asyncEmit = "goroutinePerEvent"`: `asyncEmit_tie` and the
   three `source_variant_*` obligations stop checking, and `goroutinePerEvent_overlap` /
   `goroutinePerEvent_reorder` (C16Broker) name the schedules that break the contract for that variant.
+
+  The facts are STRUCTURAL (the header of harness/cmd/extract/broker.go spells out each shape): they use exported
+  names, builtins, operators, literals, `go` statements and variable identity only — the names of unexported
+  methods / fields / locals (push, run, acquire, calls, queues, lockedRemoveListener …), the order of if-branches,
+  break-vs-return and guard-clause-vs-nested-if do not matter.
 -/
 namespace Ibx.Tie.Broker
 open Ibx.Model.Broker Ibx.Props.C16Broker
@@ -34,6 +39,9 @@ theorem asyncCopiesEvent_tie : Gen.Broker.asyncCopiesEvent = true := by decide
 /-- stored and deleted events of one listener name go through ONE queue: `emitted` of the model ranges over both -/
 theorem hostSharesQueues_tie : Gen.Broker.hostSharesQueues = true := by decide
 theorem asyncBrokerFields_tie : Gen.Broker.asyncBrokerFields = ["AfterMessageDeleted", "AfterMessageStored"] := by decide
+/-- … and msghub registers with both of them under ONE listener name (the queue is per name): the hub sees
+    `stored` before `deleted` of the same message -/
+theorem msghubOneListenerName_tie : Gen.Broker.msghubOneListenerName = true := by decide
 
 /-- the synchronous broker has the shape `Model.Broker.emit` / `addListener` encode -/
 theorem syncEmitFirstResult_tie : Gen.Broker.syncEmitFirstResult = true := by decide
